@@ -1,6 +1,7 @@
 """C02 -- values matched by coordinates.  Tie B + metamorphic falsifier: permuting an input's
 dimension entries (data permuted along) or the order of the inputs changes nothing / only the order."""
 import copy
+import os
 import random
 
 import common
@@ -102,6 +103,60 @@ def _explore(out, tier, seed, facts, replay):
                                   {"dataset": ds, "order": perm, "request": [fs, knew, ax, ai]})
             if len(samples) < 2:
                 samples.append({"n_inputs": ninp, "order": perm})
+    # (3) threshold probabilities are matched by the VALUE of the threshold in each input (inputs store them in different
+    #     orders, with different extra thresholds, or derive them from an ensemble)
+    import probtie
+    nf += probtie.run(out, rng, 8 if tier == "quick" else 80, "thresholds-by-value")
+    # (4) the same through the text reader: rows in any order, interleaved by location, one row whose location metadata
+    #     conflicts with the first row of that id (the reader warns once and keeps the first): every value is still stored
+    #     at its own (time, lead time, id)
+    import tempfile
+    import shutil
+    import verif.input
+    tmp = tempfile.mkdtemp(prefix="vfc02_")
+    try:
+        for rd in range(10 if tier == "quick" else 100):
+            times = sorted(rng.sample([1325376000 + 86400 * i for i in range(6)], rng.randint(2, 4)))
+            leads = sorted(rng.sample([0, 6, 12, 18], rng.randint(1, 3)))
+            ids = sorted(rng.sample([3, 7, 18, 41, 100], rng.randint(2, 4)))
+            meta = {i: (50.0 + i / 8.0, 10.0 + i / 4.0, float(i * 10)) for i in ids}
+            rows = [(t, l, i, rng.randint(-8, 40) / 4.0, rng.randint(-8, 40) / 4.0) for t in times for l in leads for i in ids if rng.random() < 0.85]
+            if len(rows) < 3:
+                continue
+            rng.shuffle(rows)
+            bad_at = rng.randrange(1, len(rows))
+            lines = ["unixtime leadtime location lat lon altitude obs fcst"]
+            seen = set()
+            conflict = None
+            for n_, (t, l, i, o, f) in enumerate(rows):
+                la, lo, el = meta[i]
+                if n_ >= bad_at and conflict is None and i in seen:
+                    la, conflict = la + 1.5, (n_, i)
+                seen.add(i)
+                lines.append("%d %d %d %r %r %r %r %r" % (t, l, i, la, lo, el, o, f))
+            fn = os.path.join(tmp, "c%d.txt" % rd)
+            open(fn, "w").write("\n".join(lines) + "\n")
+            try:
+                inp = verif.input.Text(fn)
+            except Exception as e:
+                out.violation("text-conflict-exception", "reading a text file with one conflicting location-metadata row raised %s: %s" % (type(e).__name__, e), {"file": "\n".join(lines)})
+                continue
+            nf += 1
+            tl, ll, il = [float(x) for x in inp.times], [float(x) for x in inp.leadtimes], [int(x.id) for x in inp.locations]
+            wrong = []
+            for (t, l, i, o, f) in rows:
+                try:
+                    go, gf = inp.obs[tl.index(float(t)), ll.index(float(l)), il.index(i)], inp.fcst[tl.index(float(t)), ll.index(float(l)), il.index(i)]
+                except ValueError:
+                    wrong.append((t, l, i, "coordinate not in the dimensions"))
+                    continue
+                if not (go == o and gf == f):
+                    wrong.append((t, l, i, "obs %r fcst %r in the file, %r %r stored" % (o, f, float(go), float(gf))))
+            if wrong:
+                out.violation("text-value-not-at-its-coordinate", "text file with rows interleaved by location and one conflicting metadata row (row %r): %d values are not stored at their "
+                              "(time, lead time, location id); first %r" % (conflict, len(wrong), wrong[0]), {"file": "\n".join(lines)})
+    finally:
+        shutil.rmtree(tmp, ignore_errors=True)
     stats.update({
         "evaluations": stats["datasets"] + stats["requests"] + nf,
         "distinct_nontrivial": max(len(distinct), 2),
